@@ -111,11 +111,15 @@ type vfC08Conf struct {
 	// before the queries.
 	AnonymizeViaAPI bool
 	Anonymize       bool
-	RefuseAny       bool
-	LogRules        []vfC08Rule
-	StatRules       []vfC08Rule
-	Clients         []*vfC08Client
-	Domains         []string
+	// LegacyPartial, if not empty, is the body of a partial update sent to
+	// the deprecated POST /control/querylog_config before the queries.  $ANON
+	// stands for the value of Anonymize.
+	LegacyPartial string
+	RefuseAny     bool
+	LogRules      []vfC08Rule
+	StatRules     []vfC08Rule
+	Clients       []*vfC08Client
+	Domains       []string
 }
 
 var vfC08ClientAddrs = map[string][]string{
@@ -129,6 +133,12 @@ func vfC08Draw(t *rapid.T) (c *vfC08Conf) {
 	c = &vfC08Conf{}
 	c.Anonymize = rapid.Bool().Draw(t, "anonymize")
 	c.AnonymizeViaAPI = rapid.IntRange(0, 2).Draw(t, "anonymize_via_api") == 0
+	if rapid.IntRange(0, 3).Draw(t, "legacy_partial") == 0 {
+		c.LegacyPartial = rapid.SampledFrom([]string{
+			`{"interval":7}`, `{"interval":1}`, `{"enabled":true}`, `{"enabled":true,"interval":30}`,
+			`{"anonymize_client_ip":$ANON}`, `{"anonymize_client_ip":$ANON,"interval":90}`, `{}`,
+		}).Draw(t, "legacy_partial_body")
+	}
 	c.RefuseAny = rapid.Bool().Draw(t, "refuse_any")
 	nd := rapid.IntRange(1, 3).Draw(t, "n_domains")
 	for i := 0; i < nd; i++ {
@@ -162,7 +172,7 @@ func (c *vfC08Conf) describe() (m map[string]any) {
 		cls = append(cls, fmt.Sprintf("%s@%s ignorelog=%t ignorestats=%t", cl.IDKind, cl.Addr, cl.IgnoreLog, cl.IgnoreStats))
 	}
 
-	return map[string]any{"anonymize": c.Anonymize, "anonymize_set_via_api": c.AnonymizeViaAPI, "refuse_any": c.RefuseAny, "querylog_ignored": lr, "stats_ignored": sr, "clients": cls}
+	return map[string]any{"anonymize": c.Anonymize, "anonymize_set_via_api": c.AnonymizeViaAPI, "legacy_partial_update": c.LegacyPartial, "refuse_any": c.RefuseAny, "querylog_ignored": lr, "stats_ignored": sr, "clients": cls}
 }
 
 // vfAnonOK reports whether ip has its last 16 (v4) / 80 (v6) bits zero.
@@ -315,6 +325,23 @@ func vfDrawC08World(t *rapid.T) (r *vfC08Run) {
 			t.Fatalf("VERIF-INCONCLUSIVE querylog config update: %d %s", rec.Code, rec.Body.String())
 		}
 		vfC08.Class(fmt.Sprintf("anonymize_set_via_api=%t", c.Anonymize))
+	}
+
+	if c.LegacyPartial != "" {
+		// A partial update through the deprecated endpoint: the settings it
+		// does not name stay in force.
+		body := strings.ReplaceAll(c.LegacyPartial, "$ANON", fmt.Sprint(c.Anonymize))
+		rec := httptest.NewRecorder()
+		req := httptest.NewRequest(http.MethodPost, "/control/querylog_config", strings.NewReader(body))
+		h := r.handlers["POST /control/querylog_config"]
+		if h == nil {
+			t.Fatalf("VERIF-INCONCLUSIVE no legacy querylog_config handler")
+		}
+		h(rec, req)
+		if rec.Code != http.StatusOK {
+			t.Fatalf("VERIF-INCONCLUSIVE legacy querylog_config %s: %d %s", body, rec.Code, rec.Body.String())
+		}
+		vfC08.Class(fmt.Sprintf("legacy_partial_update:anonymize=%t", c.Anonymize))
 	}
 
 	return r
